@@ -193,6 +193,88 @@ def spec_start():
                 decreases={1: lambda it, st: z3.Length(st.env["self"].attrs["_paused_messages_recv"].s)})
 
 
+# ------------------------------------------------------------------ dcop.solution_cost
+
+def spec_solution_cost(complete=True):
+    """terms = value of each relation, then own cost of each variable; result == (#terms equal to the
+    infinity value, sum of the other terms).  Precondition: the assignment is complete, every term is finite
+    or equal to the infinity value."""
+    rels = z3.Const("relations", ValSeq)
+    vars_ = z3.Const("variables", ValSeq)
+    nr, nv = z3.Length(rels), z3.Length(vars_)
+    inf_x, wf_inf = XR.fresh("infinity")
+    rterm, wf1 = _xr_fun("relation_value")        # r(**filter_assignment_dict(assignment, r.dimensions))
+    vterm, wf2 = _xr_fun("variable_cost")         # v.cost_for_val(assignment[v.name])
+    I = z3.Int("i")
+    # spec functions: running count / sum over the first i relations (then variables), defined by recursion
+    hard_r = z3.Function("hard_r", z3.IntSort(), z3.IntSort())
+    soft_r = z3.Function("soft_r", z3.IntSort(), z3.RealSort())
+    hard_v = z3.Function("hard_v", z3.IntSort(), z3.IntSort())
+    soft_v = z3.Function("soft_v", z3.IntSort(), z3.RealSort())
+
+    def is_inf(t):
+        return t.eq(inf_x)
+    defs = [hard_r(0) == 0, soft_r(0) == 0,
+            z3.ForAll([I], z3.Implies(z3.And(0 <= I, I < nr), z3.And(
+                hard_r(I + 1) == hard_r(I) + z3.If(is_inf(rterm(rels[I])), 1, 0),
+                soft_r(I + 1) == soft_r(I) + z3.If(is_inf(rterm(rels[I])), 0, rterm(rels[I]).v)))),
+            hard_v(0) == hard_r(nr), soft_v(0) == soft_r(nr),
+            z3.ForAll([I], z3.Implies(z3.And(0 <= I, I < nv), z3.And(
+                hard_v(I + 1) == hard_v(I) + z3.If(is_inf(vterm(vars_[I])), 1, 0),
+                soft_v(I + 1) == soft_v(I) + z3.If(is_inf(vterm(vars_[I])), 0, vterm(vars_[I]).v))))]
+    finite_or_inf = z3.ForAll([X], z3.And(z3.Or(rterm(X).k == 0, is_inf(rterm(X))), z3.Or(vterm(X).k == 0, is_inf(vterm(X)))))
+
+    def attr_val(it, st, base, attr):
+        if attr == "dimensions":
+            return "<dimensions>"
+        if attr == "name":
+            return ("name-of", base)
+        if attr == "cost_for_val":
+            return Fn("cost_for_val", lambda it, st, a, k, b=base: vterm(b))
+        raise Unsupported("attribute %s of an opaque value" % attr)
+
+    def call_val(it, st, f, args, kwargs):
+        return rterm(f)
+
+    def contains(it, st, a, b):
+        # "v.name in assignment": the assignment is complete (precondition) / incomplete variant handled by the length test
+        if isinstance(a, tuple) and a[0] == "name-of" and isinstance(b, Obj) and b.name == "assignment":
+            return True
+        raise Unsupported("in")
+
+    def subscript(it, st, base, idx):
+        if isinstance(base, Obj) and base.name == "assignment" and isinstance(idx, tuple) and idx[0] == "name-of":
+            return z3.Const("value_of_some_variable", ValSort)   # a value (not None): precondition
+        return None
+
+    def env(it):
+        return {"relations": Lst(rels), "variables": Lst(vars_), "assignment": Obj("assignment", {}), "infinity": inf_x}
+
+    def length(it, st, o):
+        return nv if complete else nv - 1
+
+    def inv1(it, st, i):
+        return z3.And(i <= nr, st.env["cost_hard"] == hard_r(i), it.num(st.env["cost_soft"]).k == 0, it.num(st.env["cost_soft"]).v == soft_r(i))
+
+    def inv2(it, st, i):
+        return z3.And(i <= nv, st.env["cost_hard"] == hard_v(i), it.num(st.env["cost_soft"]).k == 0, it.num(st.env["cost_soft"]).v == soft_v(i))
+
+    def ensures(it, st, val):
+        h, sft = val.items
+        sft = it.num(sft)
+        h = h if isinstance(h, z3.ExprRef) else z3.IntVal(h)
+        return z3.And(h == hard_v(nv), sft.k == 0, sft.v == soft_v(nv))
+    spec = dict(env=env, requires=lambda it, st: [wf_inf, wf1, wf2, finite_or_inf] + defs, ensures=ensures,
+                attr_val=attr_val, call_val=call_val, contains=contains, subscript=subscript, len=length,
+                globals={"filter_assignment_dict": Fn("filter_assignment_dict", lambda it, st, a, k: "<filtered>")},
+                loops={1: LoopSpec({"cost_hard": "int", "cost_soft": "xr"}, inv1), 2: LoopSpec({"cost_hard": "int", "cost_soft": "xr"}, inv2)},
+                loop_locals={1: ["r_cost"], 2: ["cost_for_val"]})
+    if not complete:
+        spec["raises"] = {"ValueError": lambda it, st: z3.BoolVal(True)}
+        spec["ensures"] = lambda it, st, val: z3.BoolVal(False)   # an incomplete assignment must not return
+    return spec
+
+
 def _is_false(v):
     return z3.BoolVal(v is False) if isinstance(v, bool) else z3.Not(v)
 
@@ -273,6 +355,7 @@ U_TARGETS = {
     "find_optimal[max,own-cost]": ("pydcop.dcop.relations:find_optimal", lambda: spec_find_optimal("max", True), ["C06"]),
     "get_value_candidates[None]": ("pydcop.algorithms.syncbb:get_value_candidates", lambda: spec_value_candidates(True), ["C02"]),
     "get_value_candidates[value]": ("pydcop.algorithms.syncbb:get_value_candidates", lambda: spec_value_candidates(False), ["C02"]),
+    "solution_cost[complete]": ("pydcop.dcop.dcop:solution_cost", lambda: spec_solution_cost(True), ["C13"]),
     "MessagePassingComputation.pause(False)": ("pydcop.infrastructure.computations:MessagePassingComputation.pause", spec_pause_resume, ["C19"]),
     "MessagePassingComputation.start": ("pydcop.infrastructure.computations:MessagePassingComputation.start", spec_start, ["C19"]),
 }
@@ -327,5 +410,5 @@ def _u_contract(prop):
     )
 
 
-for _p in ("C06", "C01", "C02", "C19"):
+for _p in ("C06", "C01", "C02", "C19", "C13"):
     _u_contract(_p)
